@@ -3,6 +3,8 @@ import GqlProofs.Grammar.Reject
 import GqlProofs.Grammar.PrintQuery
 import GqlProofs.Parser.SoundTop
 import GqlProofs.Parser.RetQuery
+import GqlProofs.Parser.CompleteTop
+import GqlProofs.Grammar.Complete
 /-
   C05 — the query parser accepts exactly the executable grammar, faithfully.
 
@@ -11,7 +13,12 @@ import GqlProofs.Parser.RetQuery
   driver ops `gq` / `gqc` run) and the unparser `Print.printQuery` (op `unparseq`).
   Then (section "the parser is sound") the theorems about the PARSER MODEL
   (`GqlModel/Parser/Query.lean`, op `pq`): every accepted non-empty document is derivable and its
-  tree unparses to a canonical form of the input (`C05_parse_sound`, `C05_parse_sound_<nt>`).
+  tree unparses to a canonical form of the input (`C05_parse_sound`, `C05_parse_sound_<nt>`);
+  section "completeness": every lexable input whose token sequence is derivable is accepted, and
+  the unparse of the tree is the canonical output of EVERY derivation
+  (`C05_parse_complete_canonical`, `C05_parse_complete_<nt>`), hence `C05_accepts_exactly`,
+  `C05_canonical_unique`, `C05_parse_sound_canonical` (with the recogniser's `canonical`, which
+  is complete at its standard fuel: `C05_recognises_iff`) and `C05_accepts_iff_recognises`.
   The tie to the real parser is the check `C05` (harness/internal/props/grammarcheck.go): verdict and
   unparse equation against these definitions, input by input.
 -/
@@ -257,20 +264,10 @@ theorem C05_parse_sound (inp : Bytes) (doc : QueryDoc) (h : parseQuery 0 inp = .
   obtain ⟨d, wf⟩ := h5 hne
   exact ⟨_, tokensOf_of_done h1 h2 h3, ⟨_, d⟩, d, wf⟩
 
-/- FULL STATEMENT of tree faithfulness with the recogniser's `canonical` (not finished):
-
-     theorem C05_parse_faithful_canonical (inp doc) (h : parseQuery 0 inp = .ok doc) (hne : doc.ops ≠ [] ∨ doc.frags ≠ []) :
-       ∃ ts, tokensOf inp = some ts ∧ canonical gql .executableDocument ts = some (printQuery doc)
-
-   `C05_parse_sound` proves it with `Derives gql (.nt .executableDocument) ts (printQuery doc)` in
-   place of `canonical … = some …`, i.e. "the unparse is the canonical output of SOME derivation of
-   ts", where `canonical` returns the output of the FIRST derivation the matcher finds
-   (`C05_canonical_sound`).  The two missing links are facts about the grammar tables and the
-   generic matcher only, not about the parser:
-     (1) canonical outputs are unique:  Derives gql (.nt n) ts o₁ → Derives gql (.nt n) ts o₂ → o₁ = o₂
-         (unambiguity of the grammar up to the spellings `canon` removes);
-     (2) the matcher is complete at its standard fuel:  Derivable gql n ts → (canonical gql n ts).isSome.
-   The correspondence check C05 compares `printQuery tree` with `canonical` input by input. -/
+/- Tree faithfulness with the recogniser's `canonical`: `C05_parse_sound_canonical` below
+   (`canonical gql .executableDocument ts = some (printQuery doc)`), through the completeness
+   theorem `C05_parse_complete_canonical` and the recogniser's completeness
+   `C05_recognises_complete`. -/
 
 /-- … under any token limit (a parse that succeeds under a limit is the unlimited parse) -/
 theorem C05_parse_sound_limit (L : Nat) (inp : Bytes) (doc : QueryDoc) (h : parseQuery L inp = .ok doc)
@@ -439,6 +436,148 @@ theorem C05_parse_print_fragment_definition (f : FragmentDef) (hok : FragOK f) (
     Fwd (parseFragmentDefinition n) a (fun y a' => y.erasePos = f.erasePos ∧ a'.σ = σ') :=
   fwd_fragment f hok hwf n a σ' hs
 
+/-! ### completeness: the parser accepts EXACTLY the grammar
+
+  Derivation-driven counterpart of the soundness section (`GqlProofs/Parser/CompleteQuery.lean`,
+  `CompleteTop.lean`): for every nonterminal, a run of its program on a stream that starts with a
+  token list the grammar derives (with canonical output `o`) ends live, consumes exactly those
+  tokens, and the unparse of its result is `o` — the grammar is LL(1) along the parser's
+  decisions.  The theorems are about lexable inputs (`tokensOf inp = some ts`): the tokens are
+  then of lexer shape (punctuators carry no text, names are not empty). -/
+
+/-- **Completeness.**  If the comment-free token sequence of `inp` is derivable from
+    `ExecutableDocument` with canonical output `o`, then `ParseQuery` accepts `inp`, with a
+    non-empty document whose unparse is `o`. -/
+theorem C05_parse_complete_canonical (inp : Bytes) (ts o : List Tok) (htok : tokensOf inp = some ts)
+    (hd : Derives gql (.nt .executableDocument) ts o) :
+    ∃ d, parseQuery 0 inp = .ok d ∧ printQuery d = o ∧ (d.ops ≠ [] ∨ d.frags ≠ []) :=
+  parseQuery_complete inp ts o htok hd
+
+theorem C05_parse_complete (inp : Bytes) (ts : List Tok) (htok : tokensOf inp = some ts)
+    (hd : Derivable gql .executableDocument ts) : ∃ d, parseQuery 0 inp = .ok d ∧ (d.ops ≠ [] ∨ d.frags ≠ []) := by
+  obtain ⟨o, hd⟩ := hd
+  obtain ⟨d, h1, _, h3⟩ := parseQuery_complete inp ts o htok hd
+  exact ⟨d, h1, h3⟩
+
+/-- **The query parser accepts exactly the executable grammar** (up to the empty document, which it
+    also accepts: `C05_parse_empty_counterexample`): `ParseQuery` returns a non-empty document iff
+    the lexer succeeds and the comment-free token sequence is derivable from `ExecutableDocument`. -/
+theorem C05_accepts_exactly (inp : Bytes) :
+    (∃ d, parseQuery 0 inp = .ok d ∧ (d.ops ≠ [] ∨ d.frags ≠ [])) ↔
+      ∃ ts, tokensOf inp = some ts ∧ Derivable gql .executableDocument ts := by
+  constructor
+  · rintro ⟨d, h, hne⟩
+    obtain ⟨ts, h1, h2, _⟩ := C05_parse_sound inp d h hne
+    exact ⟨ts, h1, h2⟩
+  · rintro ⟨ts, h1, h2⟩
+    exact C05_parse_complete inp ts h1 h2
+
+/-- canonical outputs are unique on lexable token sequences: all derivations of the token sequence
+    of an input have the same canonical output (the grammar is unambiguous up to the spellings that
+    `canon` removes) -/
+theorem C05_canonical_unique (inp : Bytes) (ts o₁ o₂ : List Tok) (htok : tokensOf inp = some ts)
+    (h1 : Derives gql (.nt .executableDocument) ts o₁) (h2 : Derives gql (.nt .executableDocument) ts o₂) : o₁ = o₂ := by
+  obtain ⟨d1, p1, e1, _⟩ := parseQuery_complete inp ts o₁ htok h1
+  obtain ⟨d2, p2, e2, _⟩ := parseQuery_complete inp ts o₂ htok h2
+  rw [p1] at p2
+  cases p2
+  rw [← e1, ← e2]
+
+/-- **tree faithfulness with the recogniser's `canonical`**: whenever the recogniser returns a
+    canonical form for the token sequence of an accepted input, it is the unparse of the tree
+    (so the two sides of the unparse equation of the check C05 are provably equal) -/
+theorem C05_parse_faithful_canonical (inp : Bytes) (doc : QueryDoc) (h : parseQuery 0 inp = .ok doc) (ts out : List Tok)
+    (htok : tokensOf inp = some ts) (hc : canonical gql .executableDocument ts = some out) : out = printQuery doc := by
+  obtain ⟨d, p, e, _⟩ := parseQuery_complete inp ts out htok (C05_canonical_sound ts out hc)
+  rw [h] at p
+  cases p
+  exact e.symm
+
+/-- every derivation of the token sequence of an accepted input has the unparse as its output -/
+theorem C05_parse_faithful (inp : Bytes) (doc : QueryDoc) (h : parseQuery 0 inp = .ok doc) (ts o : List Tok)
+    (htok : tokensOf inp = some ts) (hd : Derives gql (.nt .executableDocument) ts o) : o = printQuery doc := by
+  obtain ⟨d, p, e, _⟩ := parseQuery_complete inp ts o htok hd
+  rw [h] at p
+  cases p
+  exact e.symm
+
+/-- the recogniser is complete at its standard fuel `64 * (length + 2)`
+    (`GqlProofs/Grammar/Complete.lean`: derivation heights are linear in the number of tokens) … -/
+theorem C05_recognises_complete (ts : List Tok) (h : Derivable gql .executableDocument ts) : isExecutable ts = true :=
+  recognises_complete _ ts h
+
+/-- … so the executable specification side of the check DECIDES the grammar -/
+theorem C05_recognises_iff (ts : List Tok) : isExecutable ts = true ↔ Derivable gql .executableDocument ts :=
+  recognises_iff _ ts
+
+/-- **`C05_parse_sound` with the recogniser's `canonical`**: for an accepted non-empty document the
+    recogniser returns a canonical form of the token sequence, and it IS the unparse of the tree. -/
+theorem C05_parse_sound_canonical (inp : Bytes) (doc : QueryDoc) (h : parseQuery 0 inp = .ok doc)
+    (hne : doc.ops ≠ [] ∨ doc.frags ≠ []) :
+    ∃ ts, tokensOf inp = some ts ∧ canonical gql .executableDocument ts = some (printQuery doc) ∧ WFQuery doc := by
+  obtain ⟨ts, h1, h2, _, h4⟩ := C05_parse_sound inp doc h hne
+  obtain ⟨out, ho⟩ := canonical_complete _ ts h2
+  exact ⟨ts, h1, by rw [ho, C05_parse_faithful_canonical inp doc h ts out h1 ho], h4⟩
+
+/-- **the runtime comparison of the check C05, proved**: `ParseQuery` returns a non-empty document
+    iff the input lexes and the recogniser accepts its token sequence -/
+theorem C05_accepts_iff_recognises (inp : Bytes) :
+    (∃ d, parseQuery 0 inp = .ok d ∧ (d.ops ≠ [] ∨ d.frags ≠ [])) ↔ ∃ ts, tokensOf inp = some ts ∧ isExecutable ts = true := by
+  rw [C05_accepts_exactly]
+  constructor
+  · rintro ⟨ts, h1, h2⟩; exact ⟨ts, h1, C05_recognises_complete ts h2⟩
+  · rintro ⟨ts, h1, h2⟩; exact ⟨ts, h1, (C05_recognises_iff ts).1 h2⟩
+
+/-- the pieces (each: derivable token list at the head of the stream ⇒ the program ends live,
+    consumes it, and the unparse of the result is the canonical output of the derivation) -/
+theorem C05_parse_complete_value (c : Bool) (n : Nat) (ts o : List Tok) (hok : TsOK ts)
+    (hd : Derives gql (.nt (.value c)) ts o) (a : AS) (σ' : Stream) (hs : Starts a.σ ts σ') :
+    Fwd (parseValueLiteral n c) a (fun v a' => printValue v = o ∧ a'.σ = σ') :=
+  cpl_value c n ts o hok hd a σ' hs
+
+theorem C05_parse_complete_type (n : Nat) (ts o : List Tok) (hok : TsOK ts) (hd : Derives gql (.nt .typ) ts o) (a : AS)
+    (σ' : Stream) (hs : Starts a.σ ts σ') (hfol : σ'.head.kind ≠ .bang) :
+    Fwd (parseTypeReference n) a (fun ty a' => printType ty = o ∧ a'.σ = σ') :=
+  cpl_type n ts o hok hd a σ' hs hfol
+
+theorem C05_parse_complete_arguments (c : Bool) (n : Nat) (ts o : List Tok) (hok : TsOK ts)
+    (hd : Derives gql (.opt (.nt (.arguments c))) ts o) (a : AS) (σ' : Stream) (hs : Starts a.σ ts σ')
+    (hfol : σ'.head.kind ≠ .parenL) :
+    Fwd (parseArguments n c) a (fun as a' => printArguments as = o ∧ a'.σ = σ') :=
+  cpl_arguments c n ts o hok hd a σ' hs hfol
+
+theorem C05_parse_complete_directives (c : Bool) (n : Nat) (ts o : List Tok) (hok : TsOK ts)
+    (hd : Derives gql (.opt (.nt (.directives c))) ts o) (a : AS) (σ' : Stream) (hs : Starts a.σ ts σ')
+    (h1 : σ'.head.kind ≠ .at) (h2 : σ'.head.kind ≠ .parenL) :
+    Fwd (parseDirectives n c) a (fun ds a' => printDirectives ds = o ∧ a'.σ = σ') :=
+  cpl_directives c n ts o hok hd a σ' hs h1 h2
+
+theorem C05_parse_complete_variable_definitions (n : Nat) (ts o : List Tok) (hok : TsOK ts)
+    (hd : Derives gql (.opt (.nt .variableDefinitions)) ts o) (a : AS) (σ' : Stream) (hs : Starts a.σ ts σ')
+    (hfol : σ'.head.kind ≠ .parenL) :
+    Fwd (parseVariableDefinitions n) a (fun vs a' => printVarDefs vs = o ∧ a'.σ = σ') :=
+  cpl_varDefs n ts o hok hd a σ' hs hfol
+
+theorem C05_parse_complete_selection (n : Nat) (ts o : List Tok) (hok : TsOK ts) (hd : Derives gql (.nt .selection) ts o)
+    (a : AS) (σ' : Stream) (hs : Starts a.σ ts σ') (hfol : FolSel σ') :
+    Fwd (parseSelection n) a (fun s a' => printSelection s = o ∧ a'.σ = σ') :=
+  cpl_selection n ts o hok hd a σ' hs hfol
+
+theorem C05_parse_complete_selection_set (n : Nat) (ts o : List Tok) (hok : TsOK ts) (hd : Derives gql (.nt .selectionSet) ts o)
+    (a : AS) (σ' : Stream) (hs : Starts a.σ ts σ') :
+    Fwd (parseRequiredSelectionSet n) a (fun ss a' => printSelectionSet ss = o ∧ a'.σ = σ') :=
+  cpl_requiredSelectionSet n ts o hok hd a σ' hs
+
+theorem C05_parse_complete_operation_definition (n : Nat) (ts o : List Tok) (hok : TsOK ts)
+    (hd : Derives gql (.nt .operationDefinition) ts o) (a : AS) (σ' : Stream) (hs : Starts a.σ ts σ') :
+    Fwd (parseOperationDefinition n) a (fun y a' => printOperation y = o ∧ y.pos.start = a.σ.head.start ∧ a'.σ = σ') :=
+  cpl_operation n ts o hok hd a σ' hs
+
+theorem C05_parse_complete_fragment_definition (n : Nat) (ts o : List Tok) (hok : TsOK ts)
+    (hd : Derives gql (.nt .fragmentDefinition) ts o) (a : AS) (σ' : Stream) (hs : Starts a.σ ts σ') :
+    Fwd (parseFragmentDefinition n) a (fun y a' => printFragment y = o ∧ y.pos.start = a.σ.head.start ∧ a'.σ = σ') :=
+  cpl_fragment n ts o hok hd a σ' hs
+
 #print axioms C05_print_in_grammar
 #print axioms C05_print_canonical
 #print axioms C05_recognise_sound
@@ -471,3 +610,13 @@ theorem C05_parse_print_fragment_definition (f : FragmentDef) (hok : FragOK f) (
 #print axioms C05_parse_print_selection
 #print axioms C05_parse_print_operation_long
 #print axioms C05_parse_print_fragment_definition
+#print axioms C05_parse_complete_canonical
+#print axioms C05_parse_complete
+#print axioms C05_accepts_exactly
+#print axioms C05_canonical_unique
+#print axioms C05_parse_faithful_canonical
+#print axioms C05_parse_faithful
+#print axioms C05_parse_complete_selection
+#print axioms C05_recognises_iff
+#print axioms C05_parse_sound_canonical
+#print axioms C05_accepts_iff_recognises
